@@ -112,7 +112,9 @@ func genC01(g engine.G) *engine.Case {
 	o.AllowOnce = true
 	o.FailP = 10
 	var sc *engine.Scenario
-	switch g.Int(0, 5) {
+	switch g.Int(0, 6) {
+	case 6:
+		sc = engine.GenWide(g, o)
 	case 5:
 		// labels containing "/" + type strings, and non-identifier names
 		sc = engine.GenHostile(g, o)
